@@ -15,8 +15,16 @@ def pack(layout, values, rng):
     """values: dict of fixed fields; the rest random from rng. Returns (me, full dict)."""
     me = 0
     full = {}
+    corner = None
     for name, w in layout:
-        v = values[name] if name in values else rng.getrandbits(w)
+        if name in values:
+            v = values[name]
+        else:
+            # free fields: uniformly random in three of four messages, in the fourth every free field sits on a corner of its range
+            # (0, 1, max-1, max), so that combinations of special values in several fields at once occur regularly
+            if corner is None:
+                corner = rng.getrandbits(2) == 0
+            v = rng.choice([0, (1 << w) - 1, 1 % (1 << w), ((1 << w) - 2) % (1 << w), rng.getrandbits(w)]) if corner else rng.getrandbits(w)
         full[name] = v
         me = (me << w) | v
     return me, full
